@@ -86,6 +86,9 @@ func (comp) Gen(prop string, rng *rand.Rand, tier string) *core.History {
 	if maxBytes == hugeBytes {
 		sizes = []int64{-1, 0, 1, 40, 40, 90, 150}
 	}
+	if core.Chance(rng, 1, 12) {
+		sizes = append(sizes, 1<<31, 1<<32, 1<<32+5) // edge of the 32-bit range (sizes are ints, the byte counter an int64)
+	}
 	nops := 20 + rng.Intn(41)
 	for i := 0; i < nops; i++ {
 		k := core.Pick(rng, keys)
